@@ -429,6 +429,7 @@ SEQS = [[OK], [FAIL, OK], [FAIL, FAIL, OK], [CRASH, OK], [OMIT], [OK, FAIL], [CR
 NRUNS = 3 if os.environ.get("XH_THOROUGH") == "1" else 2
 QUICK = os.environ.get("XH_THOROUGH") != "1" and os.environ.get("XH_REPLAY") != "1"
 S_A, S_2 = (SPLIT // 4, SPLIT % 4) if SPLIT >= 0 else (-1, -1)
+ST = int(os.environ.get("XH_C18_ST", "-1"))       # further split of h_single (thorough tier) by strict / lenient hashing and pre-populated destination
 CA = int(os.environ.get("XH_C18_CA", "-1"))       # further split of h_vec by the cache state of a.0
 
 
@@ -440,6 +441,7 @@ def h_single(pre_dest: bool, dest_only: bool, cache_a: int, c_x: int, c_rc: int,
     pre: 0 <= sa < len(SEQS) and 0 <= sb < 4
     pre: strict or (c_x == x1 and x1 == x2 and x2 == x3)
     pre: SPLIT < 0 or (sa == S_A and sb == S_2)
+    pre: ST < 0 or (strict == (ST % 2 == 1) and pre_dest == (ST // 2 == 1))
     pre: not QUICK or (dest_only != pre_dest and (not pre_dest or (cache_a == 0 and strict)) and c_x <= 1 and x1 <= 1 and x2 <= 1)
     post: _
     """
@@ -550,7 +552,8 @@ def run(rep, tier):
     env = {} if q else {"XH_THOROUGH": "1"}
     to = 900 if q else 3000
     # split = 4 * (outcome sequence of a / a.0) + (outcome sequence of b / a.1); the quick tier pairs each sequence of the first with [ok] or [fail, ok] for the second
-    specs = [{"fn": "h_single", "timeout": to, "split": 4 * s + t, "env": env} for s in range(len(SEQS)) for t in ([(s + 1) % 2] if q else range(4))]
+    specs = [{"fn": "h_single", "timeout": to, "split": 4 * s + t, "env": dict(env, **({} if st < 0 else {"XH_C18_ST": str(st)})), "tag": "" if st < 0 else f"/st{st}"}
+             for s in range(len(SEQS)) for t in ([(s + 1) % 2] if q else range(4)) for st in ([-1] if q else range(4))]
     specs += [{"fn": "h_vec", "timeout": to, "split": 4 * s + t, "env": dict(env, XH_C18_CA=str(ca)), "tag": f"/cache{ca}"} for s in range(len(SEQS)) for t in ([(s + 1) % 2] if q else range(4)) for ca in range(2 if q else 3)]
     specs.sort(key=lambda sp: sp["fn"] != "h_vec")            # long ones first
     specs += [{"fn": "h_hash_fields", "timeout": 600, "split": f} for f in range(6)]
